@@ -9,8 +9,8 @@
   to dial, fail on the first message (either way), or reach the server — in any order and number.
 
   The event loop's error branch — is the error that ends the watch handed to `sendError`? — is
-  the rule parameter `Rules.reports` of `withRules`; `rstep = withRules genRules rstepFacts`
-  reads it (and every other fact) off the current source. `genRules_sound` + `facts_as_modelled`
+  the rule parameter `RRules.reports` of `withRules`; `rstep = withRules genRRules rstepFacts`
+  reads it (and every other fact) off the current source. `genRRules_sound` + `facts_as_modelled`
   give `code_as_modelled : rstep = rstepCore`; `watch_never_silent` / `recv_error_retried_or_reported`
   state the clause "…or terminates with an Errored event"; `seeded_rule_*` are kernel-checked
   witnesses that a rule which swallows a clean end of stream makes the watch go silent.
@@ -1325,19 +1325,19 @@ theorem facts_as_modelled : rstepFacts = rstepCore := by
 
 /-- a rule for the event loop's error branch is sound when EVERY error that ends the watch —
     a status error or a clean end of stream — is handed to `sendError` -/
-def Sound (r : Rules) : Prop := ∀ e, r.reports e = true
+def Sound (r : RRules) : Prop := ∀ e, r.reports e = true
 
-theorem goodRules_sound : Sound goodRules := fun _ => rfl
+theorem goodRules_sound : Sound goodRRules := fun _ => rfl
 
 /-- the CURRENT source reports every error (rests on `Gen.RWatch.eventLoopReportsStatus`,
     `eventLoopReportsEOF`, `sendErrorSendsErrored`): stops building when the error branch of
     the event loop swallows a kind of error -/
-theorem genRules_sound : Sound genRules := by
+theorem genRRules_sound : Sound genRRules := by
   intro e
   cases e <;> rfl
 
 /-- under a sound rule the error branch changes nothing -/
-theorem withRules_sound (r : Rules) (hr : Sound r) (f : Ring × RClient → RStep → Ring × RClient) :
+theorem withRules_sound (r : RRules) (hr : Sound r) (f : Ring × RClient → RStep → Ring × RClient) :
     withRules r f = f := by
   funext s st
   unfold withRules
@@ -1350,7 +1350,7 @@ theorem withRules_sound (r : Rules) (hr : Sound r) (f : Ring × RClient → RSte
 
 theorem code_as_modelled : rstep = rstepCore := by
   unfold rstep rstepW
-  rw [withRules_sound genRules genRules_sound, facts_as_modelled]
+  rw [withRules_sound genRRules genRRules_sound, facts_as_modelled]
 
 theorem rrun_eq : rrun = rrunCore := by
   funext s steps
@@ -1493,7 +1493,7 @@ theorem recv_error_retried_or_reported (s : Ring × RClient) (b : Bool) (e : Rec
 /-- what an UNSOUND rule does (general form of the witnesses below): a step that ends the watch
     with an error the rule does not report leaves the subscriber's stream exactly as it was — the
     client is `done` and nothing says so -/
-theorem unreported_end_is_silent (r : Rules) (f : Ring × RClient → RStep → Ring × RClient) (s : Ring × RClient)
+theorem unreported_end_is_silent (r : RRules) (f : Ring × RClient → RStep → Ring × RClient) (s : Ring × RClient)
     (st : RStep) (cause : RCause) (hnot : isDonePhase s.2.phase = false) (hd : (f s st).2.phase = .done cause)
     (hr : r.reports (endErr s.2 st cause) = false) :
     (withRules r f s st).2.phase = .done cause ∧ (withRules r f s st).2.delivered = s.2.delivered := by
@@ -1586,9 +1586,9 @@ List). The property's clause fails in exactly the three non-retryable situations
 a bookmark and retries enabled the watch still resumes (the fourth example), which is why such a
 change survives every test that only restarts servers. -/
 
-def seededRules : Rules := { reports := fun | .eof => false | .status => true }
+def seededRules : RRules := { reports := fun | .eof => false | .status => true }
 
-def rrunW (r : Rules) (s : Ring × RClient) (steps : List RStep) : Ring × RClient := steps.foldl (withRules r rstepCore) s
+def rrunW (r : RRules) (s : Ring × RClient) (steps : List RStep) : Ring × RClient := steps.foldl (withRules r rstepCore) s
 
 theorem seededRules_unsound : ¬ Sound seededRules := fun h => by have := h .eof; cases this
 
